@@ -230,8 +230,13 @@ class FileInfo:
             self.arch_len = 0
             return
 
-        self.start_data = data[:self.vpk.dir_limit]
-        arch_data = data[self.vpk.dir_limit:]
+        if self.vpk.dir_limit is None:
+            # No limit, everything is kept in the directory.
+            self.start_data = data
+            arch_data = b''
+        else:
+            self.start_data = data[:self.vpk.dir_limit]
+            arch_data = data[self.vpk.dir_limit:]
 
         self.arch_len = len(arch_data)
 
